@@ -26,9 +26,9 @@ Ties, all checked on every run against the tree under test, no hook:
     N count the configurations accepted before it.
  X4 the gob mirror types of c12gob vs. lintcmd's: every real `-f binary` file is decoded
     into the mirror types and re-encoded; wire type definitions and value bytes must agree.
- Probes of the world hypotheses: analyzer names of the real registry are distinct after
- case folding; every category a real run reports is a registered name (or compile/config/
- staticcheck); U1000 has MergeIfAll in every real run.
+ Probes of the world hypotheses: analyzer names of the real registry (which must be the
+ names `staticcheck -list-checks` prints) and the categories real runs report are spelled
+ in one letter case; U1000 has MergeIfAll in every real run.
 
 Oracle (independent of the model, computed here from the runs): the printed multiset is
 exactly {(d, sorted build names of the runs that reported d) | d kept by any/all}, each
@@ -467,6 +467,11 @@ GOB_SEQ = [0]
 
 
 def run_gob(ctx, gob, sc, jobs, par=None):
+    if len(jobs) > 400:         # bounded batches, so that the per-call timeout means something on a loaded machine
+        out = []
+        for i in range(0, len(jobs), 400):
+            out += run_gob(ctx, gob, sc, jobs[i:i + 400], par)
+        return out
     inp = "".join(json.dumps(j) + "\n" for j in jobs)
     env = vlib.go_env({"GOMAXPROCS": "2"})
     with MODEL_LOCK:
@@ -529,10 +534,13 @@ CRAFT_ARGS = ["-show-ignored"]
 
 
 def check_crafted(ctx, gob, sc, cases, rng, label, oracle=True):
-    """cases: list of run lists. Returns (oracle_failures, model_diffs, stats)."""
+    """cases: list of run lists, or of (runs, label, oracle) triples (one batch of real invocations).
+    Returns (oracle_failures, model_diffs, stats)."""
+    spec = [c if isinstance(c, tuple) else (c, label, oracle) for c in cases]
+    cases = [c[0] for c in spec]
     jobs, meta = [], []
     for ci, runs in enumerate(cases):
-        for (vname, files, stdin) in variants(rng.fork("v%d" % ci), runs, not ctx.quick):
+        for (vname, files, stdin) in variants(rng.fork("%s/v%d" % (spec[ci][1], ci)), runs, not ctx.quick):
             fmts = ["text", "json"] if vname in ("base", "stdin", "onefile") else ["text"]
             jobs.append({"id": len(jobs), "files": files, "stdin": stdin, "formats": fmts, "args": CRAFT_ARGS})
             meta.append((ci, vname))
@@ -542,7 +550,7 @@ def check_crafted(ctx, gob, sc, cases, rng, label, oracle=True):
     stats = collections.Counter()
     base_text = {}
     for idx, (j, r, (ci, vname)) in enumerate(zip(jobs, res, meta)):
-        runs = cases[ci]
+        runs, label, oracle = spec[ci]
         got_text = ms(parse_text(r["out"]["text"]["stdout"]))
         got_json = ms(parse_json(r["out"]["json"]["stdout"])) if "json" in r["out"] else None
         stats["invocations"] += len(r["out"])
@@ -838,10 +846,12 @@ def matrix_module(ctx, gob, sc, cache, base, texts, cfgs, r, reg, with_sub):
     offs = Offsets()
     snapshot = {n: t for n, (_, t) in texts.items()}
 
+    probes = []
+
     def fail(what, **kw):
         d = {"module_files": snapshot, "configs": [list(c) for c in cfgs], "what": what}
         d.update(kw)
-        fails.append(d)
+        (probes if what.startswith("world hypothesis probe") else fails).append(d)
 
     # (a) one PLAIN run per configuration: no -matrix, no -f binary, json output
     def plain(c):
@@ -861,13 +871,50 @@ def matrix_module(ctx, gob, sc, cache, base, texts, cfgs, r, reg, with_sub):
                         "cat": j["code"], "msg": j["message"], "sev": 0, "src": j["code"] == "U1000"})
         return c[0], out
 
-    with ThreadPoolExecutor(max_workers=3) as ex:
-        raws = dict(ex.map(plain, cfgs))
-    stats["invocations"] += len(cfgs)
+    pool = ThreadPoolExecutor(max_workers=4)
+    f_plain = [pool.submit(plain, c) for c in cfgs]
+
+    # (b) one real -f binary run per configuration, alternately from the LF and the CRLF checkout
+    where = {}
+    for i, c in enumerate(cfgs):
+        where[c[0]] = crlf if i % 2 == 1 else lf
+    if r.chance(1, 2):
+        where = {k: (crlf if v == lf else lf) for k, v in where.items()}
+    invs = [(c, where[c[0]], where[c[0]], "./...") for c in cfgs]
+    if with_sub:
+        # the same two configurations from the sub directory of both checkouts (paths with "..")
+        invs += [(cfgs[0], lf, os.path.join(lf, "sub"), "../..."), (cfgs[1], crlf, os.path.join(crlf, "sub"), "../...")]
+
+    def binrun(iv):
+        c, d, cwd, pat = iv
+        rc, so, se = sc_run(sc, ["-matrix", "-f", "binary", pat], cwd, (cfg_line(c) + "\n").encode(), cache)
+        if rc != 0 or se.strip():
+            return "`echo '%s' | staticcheck -matrix -f binary %s` in %s: rc=%d stderr: %s" % (cfg_line(c), pat, os.path.relpath(cwd, base), rc, se[-800:])
+        p = os.path.join(base, "run_%s_%s.bin" % (c[0], "sub" if pat != "./..." else "root"))
+        with open(p, "wb") as f:
+            f.write(so)
+        return p
+
+    f_bin = [pool.submit(binrun, iv) for iv in invs]
+    try:
+        raws = dict(f.result() for f in f_plain)
+        bins = [f.result() for f in f_bin]
+    finally:
+        pool.shutdown()
+    stats["invocations"] += len(cfgs) + len(invs)
+    # probe of CaseConsistent on real runs: the categories reported, together with the registered names,
+    # must be spelled in one letter case (a category that is not a registered name is fine as such)
+    spelled = {}
+    for n, _ in reg:
+        spelled.setdefault(n.lower(), set()).add(n)
     for name, ds in raws.items():
         for d in ds:
-            if d["cat"].lower() not in reg_map and d["cat"] not in ("compile", "config", "staticcheck"):
-                fail("world hypothesis probe: a real run reports category %r, which is not a registered analyzer" % d["cat"])
+            spelled.setdefault(d["cat"].lower(), set()).add(d["cat"])
+            if d["cat"].lower() not in reg_map:
+                stats["category_without_analyzer:" + d["cat"]] += 1
+    for k, v in spelled.items():
+        if len(v) > 1:
+            fail("world hypothesis probe: check names that differ only in letter case occur in real runs / the registry: %s" % sorted(v))
 
     def checked_of(c, d):
         return [os.path.join(d, n) for n in gofiles if holds(texts[n][0], c[1])]
@@ -895,36 +942,12 @@ def matrix_module(ctx, gob, sc, cache, base, texts, cfgs, r, reg, with_sub):
                        "mergeif": doc_strategy(reg_map, x["cat"]), "build": c[0]})
         return {"checked": [rel(p) for p in checked_of(c, d)], "diags": ds}
 
-    # (b) one real -f binary run per configuration, alternately from the LF and the CRLF checkout
-    where = {}
-    for i, c in enumerate(cfgs):
-        where[c[0]] = crlf if i % 2 == 1 else lf
-    if r.chance(1, 2):
-        where = {k: (crlf if v == lf else lf) for k, v in where.items()}
-    invs = [(c, where[c[0]], where[c[0]], "./...") for c in cfgs]
-    if with_sub:
-        # the same two configurations from the sub directory of both checkouts (paths with "..")
-        invs += [(cfgs[0], lf, os.path.join(lf, "sub"), "../..."), (cfgs[1], crlf, os.path.join(crlf, "sub"), "../...")]
-
-    def binrun(iv):
-        c, d, cwd, pat = iv
-        rc, so, se = sc_run(sc, ["-matrix", "-f", "binary", pat], cwd, (cfg_line(c) + "\n").encode(), cache)
-        if rc != 0 or se.strip():
-            return "`echo '%s' | staticcheck -matrix -f binary %s` in %s: rc=%d stderr: %s" % (cfg_line(c), pat, os.path.relpath(cwd, base), rc, se[-800:])
-        p = os.path.join(base, "run_%s_%s.bin" % (c[0], "sub" if pat != "./..." else "root"))
-        with open(p, "wb") as f:
-            f.write(so)
-        return p
-
-    with ThreadPoolExecutor(max_workers=3) as ex:
-        bins = list(ex.map(binrun, invs))
-    stats["invocations"] += len(invs)
     broken = [b for b in bins if not b.endswith(".bin")]
     if broken:
         # the plain run of the same configuration worked: a configuration given as a one-line matrix does not run
         fail("a one-line build matrix naming a configuration that lints fine with -tags does not produce a -f binary run", got=broken,
              expected=["one run per configuration"])
-        return fails, diffs, stats, {"configs": [cfg_line(c) for c in cfgs]}
+        return fails + probes, diffs, stats, {"configs": [cfg_line(c) for c in cfgs]}
     rc, so, se = vlib.run([gob, "dump"] + bins, env=vlib.go_env())
     if rc != 0:
         raise vlib.HarnessError("c12gob dump failed: " + se[-800:])
@@ -1067,6 +1090,7 @@ def matrix_module(ctx, gob, sc, cache, base, texts, cfgs, r, reg, with_sub):
                 diffs.append({"what": "model (parseBuildConfigs + lintRun + binOut + mergeRuns) differs from the real output: " + what,
                               "module_files": snapshot, "configs": [list(c) for c in cfgs], "stdin": stdin.decode() if stdin is not None else None,
                               "model": show_ms(mo_ms), "real": show_ms(got)})
+    fails += probes           # concrete output differences first
     sample = {"configs": [cfg_line(c) for c in cfgs], "matrix_stdin_varied": varied, "kept": show_ms(exp_text)[:6], "situations": sorted(tags),
               "binary_runs_made_in": {k: os.path.relpath(v, base) for k, v in where.items()}}
     return fails, diffs, stats, sample
@@ -1165,6 +1189,7 @@ def check_parser(ctx, sc, rng, ncases):
 
     with ThreadPoolExecutor(max_workers=6) as ex:
         reals = list(ex.map(real, texts))
+    stats["distinct_texts_with_a_configuration_line"] = len(set(t for (t, _, _) in cases if t.strip()))
     for (t, simple, nvalid), m1, t2, m2, got in zip(cases, first, texts, second, reals):
         stats["invocations"] += 1
         stats["model:" + " ".join(m2.split()[::2][:2])] += 1
@@ -1253,6 +1278,13 @@ def run(ctx):
         raise vlib.HarnessError("c12driver was not built: " + json.dumps(lean_broke)[:2000])
     reg = load_registry(ctx, gob)
     sc = f_sc.result()
+    # the registry c12gob links in must be the one the binary under test registers
+    rc, so, se = vlib.run([sc, "-list-checks"], env=vlib.go_env(), timeout=120)
+    listed = sorted(l.split()[0] for l in so.splitlines() if l.strip())
+    if rc != 0 or listed != sorted(n for n, _ in reg):
+        raise vlib.HarnessError("`staticcheck -list-checks` and `c12gob registry` disagree on the registered analyzers (update "
+                                "harness/cmd/c12gob/registry.go): only binary %s, only harness %s" % (
+                                    sorted(set(listed) - set(n for n, _ in reg))[:10], sorted(set(n for n, _ in reg) - set(listed))[:10]))
     phase["go_builds_total"] = round(time.time() - t0, 1)
     if ctx.replay:
         return replay(ctx, gob, sc, reg)
@@ -1266,7 +1298,7 @@ def run(ctx):
                       text="C12: registered analyzer names collide after case folding: %s" % clash)
 
     rng = vlib.SplitMix(ctx.seed).fork("C12")
-    ncases, ngroups, nmods, nparse = (40, 16, 3, 80) if ctx.quick else (2000, 16, 40, 2500)
+    ncases, ngroups, nmods, nparse = (28, 16, 3, 40) if ctx.quick else (400, 16, 12, 400)
     corpus = [norm_runs(c) for c in CORPUS]
     cdir = os.path.join(vlib.VERIF, "corpus", "C12")
     if os.path.isdir(cdir):
@@ -1278,28 +1310,33 @@ def run(ctx):
 
     def crafted():
         t = time.time()
-        a = check_crafted(ctx, gob, sc, corpus, rng.fork("corpusv"), "corpus")
-        b = check_crafted(ctx, gob, sc, corpus_case, rng.fork("corpuscv"), "corpus-case-inconsistent", oracle=False)
-        c = check_crafted(ctx, gob, sc, gen, rng.fork("genv"), "generated")
+        batch = [(c, "corpus", True) for c in corpus] + [(c, "corpus-case-inconsistent", False) for c in corpus_case] + \
+                [(c, "generated", True) for c in gen]
+        a = check_crafted(ctx, gob, sc, batch, rng.fork("craftedv"), "crafted")
         phase["crafted_merge"] = round(time.time() - t, 1)
-        return a, b, c
+        return a
 
     def real_modules():
         t = time.time()
         m = check_matrix(ctx, gob, sc, rng.fork("matrix"), nmods, reg)
         phase["real_modules"] = round(time.time() - t, 1)
+        return m
+
+    def parser():
         t = time.time()
         p = check_parser(ctx, sc, rng.fork("parser"), nparse)
         phase["matrix_parser"] = round(time.time() - t, 1)
-        return m, p
+        return p
 
     f1 = ex.submit(crafted)
     f2 = ex.submit(real_modules)
-    (fa, da, sa), (fb, db, sb), (fc, dc, s2) = f1.result()
-    (f3, d3, s3, msamples), (f4, d4, s4) = f2.result()
+    f5 = ex.submit(parser)
+    fails, d12, s1 = f1.result()
+    s2 = collections.Counter()
+    f3, d3, s3, msamples = f2.result()
+    f4, d4, s4 = f5.result()
     ex.shutdown()
-    fails, diffs = fa + fc, da + db + dc + d3 + d4
-    s1 = sa + sb
+    diffs = d12 + d3 + d4
 
     hist = collections.Counter()
     nontrivial = set()
@@ -1320,14 +1357,15 @@ def run(ctx):
                 nontrivial.add(enc_runs(rs))
     ctx.coverage.update({
         "evaluations": s1["invocations"] + s2["invocations"] + s3["invocations"] + s4["invocations"],
-        "distinct_nontrivial": len(nontrivial),
+        "distinct_nontrivial": len(nontrivial) + s3["modules"] + s4["distinct_texts_with_a_configuration_line"],
         "rule": "a crafted case is a list of runs over several independent file groups; a group counts as non-trivial when it "
                 "contains an 'all' problem dropped because a run that checked its file was silent, an 'all' problem kept although "
                 "some run was silent (that run did not check the file), a problem whose build names were merged from several runs, "
                 "two distinct descriptors equal on (file,line,column,message) under several builds, a descriptor twice in one run, "
                 "one descriptor reported with different strategies, or one (descriptor, build) with different severities; "
-                "distinct = distinct canonical input lines of such groups. Real modules (counted separately under real_modules) always "
-                "contain an 'all' check other than U1000 that fires in a shared file under a strict subset of the configurations.",
+                "distinct = distinct canonical input lines of such groups; plus the real modules (each is asserted to contain an 'all' check "
+                "other than U1000 that fires in a shared file under a strict subset of the configurations; details under real_modules); plus the "
+                "distinct matrix texts with at least one non-blank line fed to the real parser (details under matrix_parser).",
         "crafted_cases": len(corpus) + len(corpus_case) + len(gen), "groups_per_case": ngroups,
         "histogram": dict(sorted(hist.items())),
         "real_modules": dict(sorted(s3.items())),
